@@ -250,7 +250,7 @@ def main():
         rep.count(2, "replay-a"), rep.count(0, "replay-b")
         rep.set("states", 1), rep.set("transitions", 1), rep.set("traces_validated_against_impl", 0)
         return rep.finish()
-    cfg = "MC_Flows_full.cfg" if thorough else "MC_Flows_quick.cfg"
+    cfg = "MC_Flows_full.cfg" if thorough else "MC_Flows_quick3.cfg"
     r = tlc.run("MC_Flows", cfg, workers=16, timeout=1800, coverage=False)
     rep.set("tlc_runs", {cfg: {"distinct": r.distinct, "generated": r.generated, "wall_s": round(r.wall_s, 1),
                                "result": r.violated or "no error", "cases": len(r.cases)}})
@@ -263,8 +263,17 @@ def main():
     for c in r.cases:
         uniq.setdefault(json.dumps(c["dist"], sort_keys=True), c)
     cases = list(uniq.values())
-    budget = 3200 if thorough else 292
-    picked = cases if len(cases) <= budget else rng.sample(cases, budget)
+    budget = 3200 if thorough else 300
+    if len(cases) <= budget:
+        picked = cases
+    else:       # stratified by nesting depth: the deepest nests are where merge_transforms and path mix-ups show
+        by = {}
+        for c in cases:
+            by.setdefault(c["nest"], []).append(c)
+        picked = []
+        for n in sorted(by):
+            share = budget // 2 if n == max(by) else budget // (2 * max(1, len(by) - 1))
+            picked += by[n] if len(by[n]) <= share else rng.sample(by[n], share)
     pool.map_cases(rep, "harness.c03", "check_case", picked, chunk=10)
     grid = real_grid(thorough, rng)
     pool.map_cases(rep, "harness.c03", "check_real", grid, chunk=4)
